@@ -101,8 +101,7 @@ class E1Check(runner.Check):
         for g in range(len(self.extra_states(tier))):
             out.append((tier, "extra", g))
         if self.l3_table:
-            import l3
-            for g in range(len(l3.TABLES[self.l3_table][1])):
+            for g in range(len(self.l3_spec()[1])):
                 out.append((tier, "l3", g))
         return out
 
@@ -219,10 +218,15 @@ class E1Check(runner.Check):
     def l3_signature(self, T, tvs, label):
         return {}
 
+    def l3_spec(self):
+        """-> (table function (T, tvs, tier) -> [(label, run, expect)], list of types)"""
+        import l3
+        return l3.TABLES[self.l3_table]
+
     def _run_l3(self, st, tier, g):
         import l3
         ak = l3.ak()
-        table, types = l3.TABLES[self.l3_table]
+        table, types = self.l3_spec()
         T = types[g]
         N, M, cap = (2, 2, 10) if tier == "quick" else (3, 2, 60)
         vals = list(values.arrays(T, N, M, 6, self.labeler))
@@ -257,7 +261,7 @@ class E1Check(runner.Check):
                     pool.mark(self._no)
                     st.transitions += 1
                     st.evaluations += 1
-                    opn = label.split("(")[0]
+                    opn = label.split("(")[0].split(" ")[0]
                     if ekind == "skip":
                         st.outcome("l3:%s:undefined-in-model" % opn)
                         continue
@@ -295,7 +299,7 @@ class E1Check(runner.Check):
         ak = l3.ak()
         T = values.type_from_json(case["gtype"])
         tvs = values.tv_from_json(case["tvs"])
-        table, types = l3.TABLES[case["table"]]
+        table, types = self.l3_spec()
         d = layouts.from_json(case["layout"])
         arr = ak.Array(layouts.build(d))
         wrap = case["wrap"][0]
